@@ -38,7 +38,10 @@ def gen_machine(rnd):
     for p in range(nproc):
         N, M = procs[p]["N"], procs[p]["M"]
         prog = []
-        pad = lambda: ["nop"] * rnd.randint(3, 5)   # well spaced (C04): at least two instructions between handshakes on one port
+        # well spaced (C04): at least two instructions between handshakes on one port.  Every processor pads with an identity instruction of
+        # its own, so that an opcode latency table can slow down one processor and not its neighbours
+        filler = rnd.choice(["nop", "nop", "cpy r3 r3", "or r3 r3", "and r3 r3"])
+        pad = lambda: [filler] * rnd.randint(3, 5)
         inregs = rnd.sample(range(4), N)           # the register an input is read into is not tied to the input's number
         tight = rnd.random() < 0.5                 # handshakes on different ports may follow each other directly
         for k in range(N):
@@ -46,11 +49,13 @@ def gen_machine(rnd):
             if not tight or k == N - 1:
                 prog += pad()
         for _ in range(rnd.randint(0, 3)):
-            a, b = rnd.randrange(4), rnd.randrange(max(N, 1))
+            a, b = rnd.randrange(3), rnd.randrange(max(N, 1))
             prog.append(rnd.choice(["add r%d r%d" % (a, b), "inc r%d" % a, "cpy r%d r%d" % (a, b), "xor r%d r%d" % (a, b)]))
+        tight_out = rnd.random() < 0.5             # writes to different outputs may follow each other directly
         for o in range(M):
             prog.append("r2owa r%d o%d" % (rnd.randrange(4), o))
-            prog += pad()
+            if not tight_out or o == M - 1:
+                prog += pad()
         prog += ["nop"] * rnd.choice([0, 0, 4, 9])        # consumers of one producer run at different speeds
         prog.append("j 0")
         O = max(3, (len(prog)).bit_length())
@@ -85,6 +90,43 @@ def directed_fanout(rnd, with_env):
         bonds.append(["o2", "p0o0"])
         nout = 3
     spec = {"rsize": rsize, "procs": specs, "inputs": 1, "outputs": nout, "bonds": bonds}
+    return spec, [[rnd.randrange(1, 1 << (rsize - 1)) for _ in range(5)]]
+
+
+def directed_two_outputs(rnd, k, slow_second=False):
+    """a producer with exactly k outputs written back to back.  Its first output is read by a processor, the others by the environment;
+    with slow_second the second output is read by a much slower processor, so that the reader of the first output is back at its read
+    while the producer still waits on the second"""
+    rsize = rnd.choice([8, 16])
+    pad = ["nop"] * 3
+    prod = ["i2rw r0 i0"] + pad + ["cpy r1 r0", "inc r1"] + ["r2owa r%d o%d" % (o % 2, o) for o in range(k)] + pad + ["j 0"]
+    first = ["i2rw r0 i0"] + pad + (["nop"] * 7 if not slow_second else []) + ["r2owa r0 o0"] + pad + ["j 0"]
+    progs = [(prod, 1, k), (first, 1, 1)]
+    bonds = [["p0i0", "i0"], ["p1i0", "p0o0"], ["o0", "p1o0"]]
+    if slow_second:
+        progs.append((["i2rw r0 i0"] + pad + ["nop"] * 24 + ["r2owa r0 o0"] + pad + ["j 0"], 1, 1))
+        bonds += [["p2i0", "p0o1"], ["o1", "p2o0"]] + [["o%d" % o, "p0o%d" % o] for o in range(2, k)]
+    else:
+        bonds += [["o%d" % o, "p0o%d" % o] for o in range(1, k)]
+    specs = []
+    for prog, N, M in progs:
+        ops = sorted(set(l.split()[0] for l in prog) | {"nop", "j"})
+        specs.append({"arch": {"R": 2, "N": N, "M": M, "L": 0, "O": max(3, len(prog).bit_length()), "ops": ops, "mode": "ha", "rsize": rsize}, "prog": prog})
+    spec = {"rsize": rsize, "procs": specs, "inputs": 1, "outputs": k, "bonds": bonds}
+    return spec, [[rnd.randrange(1, 1 << (rsize - 1)) for _ in range(5)]]
+
+
+def directed_stalled_reader(rnd):
+    """the reader pays a long latency on the instruction that follows its read (an opcode only it uses) while the writer runs freely"""
+    rsize = rnd.choice([8, 16])
+    pad = ["nop"] * 3
+    prod = ["i2rw r0 i0"] + pad + ["inc r0", "r2owa r0 o0"] + pad + ["j 0"]
+    cons = ["i2rw r0 i0", "xor r1 r1"] + pad + ["r2owa r0 o0"] + pad + ["j 0"]
+    specs = []
+    for prog in (prod, cons):
+        ops = sorted(set(l.split()[0] for l in prog) | {"nop", "j"})
+        specs.append({"arch": {"R": 2, "N": 1, "M": 1, "L": 0, "O": max(3, len(prog).bit_length()), "ops": ops, "mode": "ha", "rsize": rsize}, "prog": prog})
+    spec = {"rsize": rsize, "procs": specs, "inputs": 1, "outputs": 1, "bonds": [["p0i0", "i0"], ["p1i0", "p0o0"], ["o0", "p1o0"]]}
     return spec, [[rnd.randrange(1, 1 << (rsize - 1)) for _ in range(5)]]
 
 
@@ -123,6 +165,49 @@ def netlist_connections(top_text, nproc, procs):
     return top, assigns, insts
 
 
+def closed_body(em, term, spec, streams):
+    """the Coq file that runs the flattened design for 700 clocks against the reactive environment of Vlog.Closed and prints, per external
+    output, the values it accepted"""
+    ins = ["mkIn %s %s %s" % (em.P("i%d" % i), em.P("i%d_valid" % i), em.P("i%d_received" % i)) for i in range(spec["inputs"])]
+    outs = ["mkOut %s %s %s" % (em.P("o%d" % o), em.P("o%d_valid" % o), em.P("o%d_received" % o)) for o in range(spec["outputs"])]
+    ist = ["mkIS %s false" % simlib.nl(st) for st in streams]
+    ost = ["mkOS [] false" for _ in range(spec["outputs"])]
+    body = (vsim.HEADER + "From BM Require Import Vlog.Closed.\nDefinition m : module := %s.\n"
+            "Definition errcode (e : err) : N := match e with Unsupported n => N.of_nat n | CombLoop => 100 | FuelOut => 101 | BadDecl _ => 102 | BadLhs => 103 end.\n"
+            "Definition M := Eval vm_compute in\n  match elaborate m with\n  | Ok E => match init_state E with\n"
+            "    | Ok s0 => match run E s0 [[(%s, 0); (%s, 1)]; [(%s, 0); (%s, 1)]] with\n"
+            "      | Ok (_ :: s1 :: _) => match run_closed E [(%s, 0); (%s, 0)] %s %s 700 s1 %s %s with\n"
+            "                            | Ok os => map os_seen os | Err e => [[777001; errcode e]] end\n"
+            "      | Ok _ => [[777004]] | Err e => [[777001; errcode e]] end\n"
+            "    | Err e => [[777002; errcode e]] end\n  | Err e => [[777003; errcode e]] end.\n"
+            % (term, em.P("clk"), em.P("reset"), em.P("clk"), em.P("reset"), em.P("clk"), em.P("reset"),
+               C.cq_list(ins), C.cq_list(outs), C.cq_list(ist), C.cq_list(ost)))
+    return body
+
+
+def hdl_streams(cases, pid):
+    """per (machine, input streams): the value streams the generated Verilog delivers on every external output (or an error text)"""
+    vl = C.jsonl(C.sh([C.BMH, "vlog"], input="".join(json.dumps({"kind": "bm", "bm": spec}) + "\n" for spec, _ in cases), timeout=1800).stdout)
+    bodies, idx, out = [], [], [None] * len(cases)
+    for k, ((spec, streams), v) in enumerate(zip(cases, vl)):
+        if v.get("err"):
+            out[k] = (None, "the machine cannot be rendered: %s" % v["err"])
+            continue
+        try:
+            em, term, flat = vsim.flat_design(v["files"], "bondmachine")
+        except Exception as e:
+            out[k] = (None, "the generated Verilog does not parse: %s" % e)
+            continue
+        bodies.append(closed_body(em, term, spec, streams))
+        idx.append(k)
+    for k, o in zip(idx, C.eval_cases_parallel(pid, bodies, timeout=3000)):
+        try:
+            out[k] = (vsim.check_rows(o["M"]), None)
+        except vsim.VsimError as e:
+            out[k] = (None, "the generated Verilog cannot be executed by the Verilog semantics: %s" % e)
+    return out
+
+
 def run(res, a):
     failed = C.proof_part(res, "C02", trusted=[
         "Vlog/Sem.v and Vlog/Closed.v (reactive environment) as the meaning of the emitted Verilog and of a protocol-abiding environment",
@@ -131,18 +216,34 @@ def run(res, a):
     C.build_harness()
     rnd = random.Random(a.seed)
     n = 10 if a.tier == "quick" else 120
-    cases = [directed_fanout(rnd, False), directed_fanout(rnd, True), directed_two_inputs(rnd)] + [gen_machine(rnd) for _ in range(n)]
+    cases = [directed_fanout(rnd, False), directed_fanout(rnd, True), directed_two_inputs(rnd), directed_two_outputs(rnd, 2), directed_two_outputs(rnd, 3),
+             directed_two_outputs(rnd, 2, True), directed_two_outputs(rnd, 3, True), directed_stalled_reader(rnd)] \
+        + [gen_machine(rnd) for _ in range(n)]
     if a.replay:
         rp = json.load(open(a.replay))["replay"]
         cases = [(rp["machine"], rp["streams"])]
     ticks = 400
-    go = simlib.run_sims([{"bm": spec, "env": [], "ticks": ticks, "dump": "ext", "streams": st} for spec, st in cases])
+    # "regardless of how many clock cycles either takes": four in ten simulations run with opcode latencies (stalls), with ten times the ticks
+    drnd = random.Random(a.seed + 77)
+    delays = []
+    for k in range(len(cases)):
+        c = drnd.randrange(10)
+        delays.append(None if c < 6 or a.replay else
+                      {drnd.choice(["nop", "nop", "cpy", "or", "and"]): {str(drnd.choice([3, 10, 25])): 1.0}} if c < 8 else
+                      {"i2rw": {str(drnd.choice([2, 7])): 1.0}, "r2owa": {str(drnd.choice([2, 6])): 1.0}} if c < 9 else
+                      {"nop": {"5": 1.0}, "inc": {"4": 1.0}, "add": {"3": 1.0}, "cpy": {"2": 1.0}})
+    if not a.replay:
+        delays[7] = {"xor": {"30": 1.0}}        # directed_stalled_reader
+    if a.replay and rp.get("delays"):
+        delays = [rp["delays"]]
+    go = simlib.run_sims([dict({"bm": spec, "env": [], "ticks": ticks * (10 if dl else 1), "dump": "ext", "streams": st}, **({"delays": dl} if dl else {}))
+                          for (spec, st), dl in zip(cases, delays)])
     vl = C.jsonl(C.sh([C.BMH, "vlog"], input="".join(json.dumps({"kind": "bm", "bm": spec}) + "\n" for spec, _ in cases), timeout=1800).stdout)
     viol = []
     bodies, metas = [], []
     hist = {"machines": n, "processors": {}, "bonds_checked": 0, "values_compared": 0}
-    for (spec, streams), g, v in zip(cases, go, vl):
-        meta = {"machine": spec, "streams": streams}
+    for (spec, streams), g, v, dl in zip(cases, go, vl, delays):
+        meta = {"machine": spec, "streams": streams, "delays": dl}
         res.count_case(meta, nontrivial=True)
         hist["processors"][str(len(spec["procs"]))] = hist["processors"].get(str(len(spec["procs"])), 0) + 1
         if g.get("err") or v.get("err"):
@@ -159,20 +260,7 @@ def run(res, a):
         except Exception as e:
             viol.append(("the generated Verilog does not parse: %s" % e, meta))
             continue
-        ins = ["mkIn %s %s %s" % (em.P("i%d" % i), em.P("i%d_valid" % i), em.P("i%d_received" % i)) for i in range(spec["inputs"])]
-        outs = ["mkOut %s %s %s" % (em.P("o%d" % o), em.P("o%d_valid" % o), em.P("o%d_received" % o)) for o in range(spec["outputs"])]
-        ist = ["mkIS %s false" % simlib.nl(st) for st in streams]
-        ost = ["mkOS [] false" for _ in range(spec["outputs"])]
-        body = (vsim.HEADER + "From BM Require Import Vlog.Closed.\nDefinition m : module := %s.\n"
-                "Definition errcode (e : err) : N := match e with Unsupported n => N.of_nat n | CombLoop => 100 | FuelOut => 101 | BadDecl _ => 102 | BadLhs => 103 end.\n"
-                "Definition M := Eval vm_compute in\n  match elaborate m with\n  | Ok E => match init_state E with\n"
-                "    | Ok s0 => match run E s0 [[(%s, 0); (%s, 1)]; [(%s, 0); (%s, 1)]] with\n"
-                "      | Ok (_ :: s1 :: _) => match run_closed E [(%s, 0); (%s, 0)] %s %s 700 s1 %s %s with\n"
-                "                            | Ok os => map os_seen os | Err e => [[777001; errcode e]] end\n"
-                "      | Ok _ => [[777004]] | Err e => [[777001; errcode e]] end\n"
-                "    | Err e => [[777002; errcode e]] end\n  | Err e => [[777003; errcode e]] end.\n"
-                % (term, em.P("clk"), em.P("reset"), em.P("clk"), em.P("reset"), em.P("clk"), em.P("reset"),
-                   C.cq_list(ins), C.cq_list(outs), C.cq_list(ist), C.cq_list(ost)))
+        body = closed_body(em, term, spec, streams)
         bodies.append(body)
         metas.append((meta, g))
     for (meta, g), o in zip(metas, C.eval_cases_parallel("C02", bodies, timeout=3000)):
@@ -195,20 +283,28 @@ def run(res, a):
             m = min(len(x), len(y))
             hist["values_compared"] += m
             if x[:m] != y[:m]:
-                viol.append(("external output %d: the simulator delivers %s, the generated hardware %s" % (oidx, x, y), meta))
+                viol.append(("external output %d: the simulator%s delivers %s, the generated hardware %s"
+                             % (oidx, " (opcode latencies %s)" % meta["delays"] if meta.get("delays") else "", x, y), meta))
                 break
-            if len(y) > len(x) or (last <= 180 and len(y) < len(x)):
+            if len(y) > len(x) or (last <= 180 * (10 if meta.get("delays") else 1) and len(y) < len(x)):
                 viol.append(("external output %d: the simulator delivers %s (last delivery at tick %d of %d), the generated hardware %s within 700 clocks"
                              % (oidx, x, last, len(g["ticks"]), y), meta))
                 break
             if m < 2:
+                if len(x) < 2 and len(y) < 2:
+                    # neither world delivers: the generated machine waits on itself (a reader of two outputs in the opposite order of their
+                    # writer); equal streams, nothing to compare
+                    hist["machines_stuck_in_both_worlds"] = hist.get("machines_stuck_in_both_worlds", 0) + 1
+                    break
                 viol.append(("external output %d makes no progress within the horizon (simulator %s, hardware %s)" % (oidx, x, y), meta))
                 break
     cov = res.coverage
     cov["rule"] = ("random DAGs of 1-3 processors communicating only through i2rw/r2owa with at least three instructions between handshakes, fan-out "
                    "across processors and to external outputs, external input streams of 3-5 values offered by a protocol-abiding reactive environment "
                    "in both worlds; the simulator runs 400 ticks, the generated Verilog 700 clocks under Vlog.Sem; for each external output the two "
-                   "delivered streams are compared prefix-wise and must both progress; the top-level netlist is compared with the bond list")
+                   "delivered streams are compared prefix-wise and must both progress; the top-level netlist is compared with the bond list; four in ten "
+                   "simulations run with opcode latencies (stalls on nop, on the handshakes or on the arithmetic) and ten times the ticks; writes to "
+                   "different outputs may follow each other directly (directed: producers with exactly two and three outputs)")
     cov["input_distribution"] = hist
     cov["traces_validated_against_impl"] = len(metas)
     cov["programs"] = len(metas)
